@@ -276,6 +276,7 @@ func run(prop *Prop, id, tier string, seed int64, replay, work string, start tim
 	}
 	if harnessErr != "" {
 		exit = 2
+		agg.Exhaustive = false // part of the exploration did not run
 	}
 
 	// evidence
